@@ -114,7 +114,16 @@ pub fn history_strategy() -> impl Strategy<Value = History> {
             sv.push((2, proptest::collection::vec(recipe_strategy(), 0..3).prop_map(Step::RxcListen).boxed()));
         }
         let step = proptest::strategy::Union::new_weighted(sv);
-        proptest::collection::vec(step, 1..=8).prop_map(move |steps| History {
+        (proptest::collection::vec(step, 1..=8), 0u8..6).prop_map(move |(mut steps, undrained)| {
+            if undrained == 0 {
+                // an application that does not take its downlinks: the queue (depth 4) fills up
+                steps.insert(0, Step::SetDrain(false));
+                for k in 0..5u8 {
+                    steps.insert(1, Step::Send { port: 1 + k, len: 1, confirmed: k % 2 == 0, rx: RxPlan::rx1(Recipe::Auth { delta: 1, confirmed: false, port: Some(10 + k), payload_len: 2, fopts: vec![], frm_cmds: vec![], ack: false, fpending: false }) });
+                }
+            }
+            steps
+        }).prop_map(move |steps| History {
             cfg: DevCfg { region: REGIONS[ri], join_bias: None, front, board: (14, 0) },
             activation: Activation::Abp { fcnt_up: start, fcnt_down: None },
             board: Board { nb_async_tx: nb_async, ..Default::default() },
